@@ -19,6 +19,20 @@ def _perm_query(pid, m, n, pat, ispec):
                  defs={'MODE': 1, 'M': m, 'N': n, 'PAT': hex(pat), 'ISPEC': ispec}, engine='sat', unwind=60, timeout=600,
                  group='get_perm_c(%d) %dx%d' % (ispec, m, n))
 
+LOW4 = [(1, 0), (2, 0), (3, 0), (2, 1), (3, 1), (3, 2)]
+P4 = [[(2, 0), (3, 0), (2, 1)], [(2, 0), (2, 1), (3, 2)], [(3, 0), (3, 1), (3, 2)], [(1, 0), (3, 2)], [(2, 1)], [(1, 0), (2, 1), (3, 2)]]
+PC5 = [(0, 1, 2, 3, 4), (4, 3, 2, 1, 0), (2, 0, 3, 1, 4), (1, 4, 0, 2, 3)]
+def flip(ents, sym):
+    """column-etree mode: every other entry goes above the diagonal (the symmetric mode only sees A+A^T)"""
+    return [(i, j) if (sym or t % 2 == 0) else (j, i) for t, (i, j) in enumerate(ents)]
+
+def lowpat(n, ents):
+    """full diagonal plus the given strictly lower entries (column-major bit i + j*n)"""
+    p = 0
+    for i in range(n): p |= 1 << (i + i * n)
+    for (i, j) in ents: p |= 1 << (i + j * n)
+    return p
+
 def colorder_query(pid, n, pat, sym, maxsup=4, timeout=900):
     return Query('%s.colorder.n%d.p%x.sym%d.ms%d' % (pid, n, pat, sym, maxsup), 'ord_h.c', ORD_SRCS,
                  defs={'MODE': 2, 'N': n, 'PAT': hex(pat), 'SYM': sym, 'VH_MAXSUP': maxsup}, engine='sat', unwind=4 * n + 6,
@@ -41,13 +55,28 @@ def plan(tier, seed, pid='C10', sym_only=False):
             qs.append(colorder_query(pid, 2, pat, sym, 1 + pat % 3))
         p3 = list(range(512)) if tier == 'thorough' else rnd.sample(range(512), 8)
         qs += [colorder_query(pid, 3, pat, sym, 1 + pat % 4) for pat in sorted(p3)]
+        # n=4, symbolic input permutation (all 24 in one query): forests with a two-child parent, chains, stars, isolated columns
+        p4 = [lowpat(4, flip(e, sym)) for e in P4]
+        if tier == 'thorough':
+            p4 += [lowpat(4, flip([(i, j) for t, (i, j) in enumerate(LOW4) if (m >> t) & 1], sym)) for m in range(64)]
+        qs += [colorder_query(pid, 4, pat, sym, 1 + k % 4, timeout=1800) for k, pat in enumerate(sorted(set(p4)))]
+        # n=5, concrete input permutations (structure fully concrete: decided by constant propagation)
+        low5 = [(i, j) for j in range(5) for i in range(j + 1, 5)]
+        m5 = list(range(1024)) if tier == 'thorough' else rnd.sample(range(1024), 40)
+        for k, m in enumerate(sorted(m5)):
+            q = colorder_query(pid, 5, lowpat(5, flip([low5[t] for t in range(10) if (m >> t) & 1], sym)), sym, 1 + k % 5)
+            pc = PC5[k % len(PC5)]
+            q.defs['PCFIX'] = '0x' + ''.join('%x' % d for d in reversed(pc)); q.name += '.pc' + ''.join(map(str, pc))
+            q.group = 'sp_colorder n=5, concrete permutation, %s' % ('symmetric mode' if sym else 'column etree')
+            q.witness = (k % 8 == 0)
+            qs.append(q)
     return qs
 
 META = {
     'level': 'model_checking',
     'engines': 'E1: cbmc 6.11 bit-precise, MiniSat',
     'bounds': {'get_perm_c': 'options 0..2 (natural, MMD on A^T*A, MMD on A^T+A); every m x n pattern with m,n <= 2 and (quick: 90 sampled, thorough: all) patterns with m,n <= 3 incl. rectangular, empty rows/columns',
-               'sp_colorder': 'n<=3; pattern iterated (n=2 all; n=3 quick 8 sampled per mode, thorough all 512), input permutation symbolic (all n! bijections in one query), symmetric mode on/off, max supernode size 1..4'},
+               'sp_colorder': 'n<=4 with the input permutation symbolic (all n! bijections in one query): n=2 all patterns, n=3 quick 8 sampled per mode / thorough all 512, n=4 six forests (two-child parent, chain, star, isolated columns; thorough + all 64 lower patterns); n=5 with 4 concrete permutations on 40 (thorough 1024) full-diagonal patterns; symmetric mode on/off, max supernode size 1..5; in symmetric mode the reported counts equal the Cholesky column counts and reported supernodes nest'},
     'outside': ['option 3 (COLAMD): colamd.c carves its Row/Col records out of one int array by casts; symbolic execution of even a 2x2 instance did not finish in 600 s, so colamd.c is NOT encoded and nothing is claimed about it', 'n > 3', 'METIS orderings (not in this build)'],
     'assumptions': ['reference elimination tree computed in the harness by quadratic symbolic Cholesky on the boolean structure'],
     'trusted_base': ['cbmc 6.11', 'MiniSat'],
